@@ -51,7 +51,7 @@ struct Sys : public OptimizerSystem {
     mutable uint64_t hash = 1469598103934665603ull;
     double multiSlack = 0;              // coordinates outside by <= multiSlack*max(1,|bound|) do not count for "multi"
     std::vector<double> x0;             // the caller's own start point: evaluations exactly there are exempt from clause B
-    mutable long nAtStart = 0; double fdStep = 0;
+    mutable long nAtStart = 0; double fdStep = 0; bool x0Infeasible = false;
     mutable bool nonFinite = false;
 
     explicit Sys(int n_) : OptimizerSystem(n_), n(n_) {}
@@ -59,9 +59,9 @@ struct Sys : public OptimizerSystem {
     void log(const Vector& x, const char* where) const {
         for (int i = 0; i < n; ++i) { uint64_t u; double v = x[i]; memcpy(&u, &v, 8); hash ^= u; hash *= 1099511628211ull; if (!std::isfinite(v)) nonFinite = true; }
         if (!haveBounds) return;
-        if (!x0.empty()) {   // the start point itself, and its finite-difference stencil when numerical derivatives are on, are the caller's choice
+        if (!x0.empty()) {   // the start point itself, and (for an infeasible start) its finite-difference stencil, are the caller's choice
             int nd = 0, di = -1; for (int i = 0; i < n; ++i) if (x[i] != x0[i]) { nd++; di = i; }
-            if (nd == 0 || (nd == 1 && fdStep > 0 && std::fabs(x[di] - x0[di]) <= 1.01 * fdStep * std::max(std::fabs(x0[di]), 0.1))) { nAtStart++; return; }
+            if (nd == 0 || (nd == 1 && fdStep > 0 && x0Infeasible && std::fabs(x[di] - x0[di]) <= 1.01 * fdStep * std::max(std::fabs(x0[di]), 0.1))) { nAtStart++; return; }
         }
         int nOut = 0; double wo = 0; int wc = -1;
         for (int i = 0; i < n; ++i) {
@@ -117,7 +117,8 @@ struct Case {
 // status: 0 two-sided inactive, 1 lower active, 2 upper active, 3 unbounded, 4 lower only inactive, 5 upper only inactive, 6 degenerate lower (z=0), 7 degenerate upper
 std::unique_ptr<Sys> build(const pbt::Tape& t, Case& c) {
     pbt::Reader g(t[0]);
-    c.alg = g.pick(5); c.kind = g.chance(1, 6) ? 1 : 0; c.gradMode = g.chance(1, 2) ? 1 + g.pick(2) : (g.skip(1), 0);
+    { static const int order[5] = {A_LBFGSB, A_LBFGS, A_IPOPT, A_CMAES, A_BEST}; c.alg = order[g.pick(5)]; }   // word 0 (most frequent) -> LBFGSB
+    c.kind = g.chance(1, 6) ? 1 : 0; c.gradMode = g.chance(1, 2) ? 1 + g.pick(2) : (g.skip(1), 0);
     int tolE = g.range(0, 5);                       // 1e-4 .. 1e-9
     c.hasLimits = !g.chance(1, 5);
     int meWant = g.chance(1, 2) ? g.range(0, 3) : (g.skip(1), 0), miWant = g.chance(1, 2) ? g.range(0, 4) : (g.skip(1), 0);
@@ -222,6 +223,7 @@ std::unique_ptr<Sys> build(const pbt::Tape& t, Case& c) {
         if (mayLeave && c.hasLimits && (i % 2 == 0)) x = c.xstar[i] + off;   // anywhere
         c.x0[i] = x;
     }
+    for (int i = 0; i < n; ++i) if (c.x0[i] < S.lo[i] || c.x0[i] > S.hi[i]) S.x0Infeasible = true;
     S.x0 = c.x0; S.fdStep = (c.gradMode != 0 || c.numJac) ? std::cbrt((double)SignificantReal) : 0.0;
     if (c.hasLimits) { Vector lo(n), hi(n); for (int i = 0; i < n; ++i) { lo[i] = S.lo[i]; hi[i] = S.hi[i]; } S.setParameterLimits(lo, hi); }
     if (me + mi > 0) { S.setNumEqualityConstraints(me); S.setNumInequalityConstraints(mi); }
